@@ -701,7 +701,22 @@ def sign_multiplier_stub(data, dim):
 
 
 # ---------------------------------------------------------------------------------------
-# scipy.signal.hilbert: analytic signal, contract Re(H) == input
+# scipy.signal.hilbert: analytic signal, contract Re(H) == input and Im(H) == K y along the transformed axis, where K is
+# the discrete Hilbert-transform matrix of that length (DFT definition, entries taken as the double-precision numbers)
+
+
+def hilbert_matrix(n):
+    """imaginary part of the analytic signal of the unit vectors: Im(ifft(h * fft(I)))"""
+    h = np.zeros(n)
+    h[0] = 1.0
+    if n % 2 == 0:
+        h[n // 2] = 1.0
+        h[1 : n // 2] = 2.0
+    else:
+        h[1 : (n + 1) // 2] = 2.0
+    K = np.imag(np.fft.ifft(np.fft.fft(np.eye(n), axis=0) * h[:, None], axis=0))
+    K[np.abs(K) < 1e-15] = 0.0
+    return K
 
 
 def hilbert_stub(y, N=None, axis=-1):
@@ -721,6 +736,19 @@ def hilbert_stub(y, N=None, axis=-1):
     idn = len(hcache)
     yo = obj(y)
     out = np.empty(yo.shape, dtype=object)
+    if N is None and axis in (0, -yo.ndim) and yo.ndim == 2 and yo.shape[0] <= 8:
+        # exact linear model of the routine (small lengths): H = y + i K y
+        K = hilbert_matrix(yo.shape[0])
+        for j in range(yo.shape[0]):
+            for col in range(yo.shape[1]):
+                acc = Poly.const(0)
+                for k_ in range(yo.shape[0]):
+                    if K[j, k_] != 0.0:
+                        acc = acc + Sym.of(yo[k_, col]).p * Poly.const(Fraction(float(K[j, k_])))
+                out[j, col] = Sym(Sym.of(yo[j, col]).p + Poly.I() * acc)
+        c.stub_log.append({"stub": "scipy.signal.hilbert", "shape": list(yo.shape), "model": "linear map y + i K y (K = discrete Hilbert matrix in double precision)"})
+        hcache[hkey] = SymArray(out.copy(), C128)
+        return SymArray(out, C128)
     for idx in np.ndindex(*yo.shape):
         im = c.new_var(f"hil{idn}" + "".join(f"_{i}" for i in idx), "stub", None if h0 is None else float(np.imag(h0[idx])), "imaginary part of the analytic signal")
         out[idx] = Sym(Sym.of(yo[idx]).p + Poly.I() * im)
